@@ -165,8 +165,17 @@ void operands_unchanged(const Step& s, FAH& a, FAH* b, const std::string& P) {
 	if (b) { FA g2; if (!read_back(*b->aut, g2, &why) || !same_fa(g2, b->model)) violation(P + ".operand-unchanged", s.op, "right operand changed by the call " + why + fa_diff(b->model, g2)); }
 }
 
+// Histories feed results back into operations (X = U n U, then X n X, ...): sizes grow polynomially per step and
+// exponentially over a history.  Beyond these bounds the step is skipped: nothing is learnt from a 65 000-state
+// product except that it is slow, and the tick budget of a step is meant to flag hangs, not big inputs.
+bool too_big(const FA& a, const FA* b = nullptr) {
+	size_t na = a.states().size() + a.edges.size(), nb = b ? b->states().size() + b->edges.size() : 1;
+	return na > 400 || nb > 400 || na * nb > 20000;
+}
+
 void op_union(const Step& s) {
 	FAH& a = H(s, 0); FAH& b = H(s, 1); FA ma = a.model, mb = b.model; VATA::AutBase::StateToStateMap m1, m2;
+	if (too_big(ma, &mb)) throw Skip();
 	api_begin();
 	EF r = (s.arg(2) & 1) ? EF::Union(*a.aut, *b.aut, &m1, &m2) : EF::Union(*a.aut, *b.aut);
 	api_end();
@@ -181,6 +190,7 @@ void op_union(const Step& s) {
 
 void op_union_disj(const Step& s) {
 	FAH& a = H(s, 0); FAH& b = H(s, 1); FA ma = a.model, mb = b.model;
+	if (too_big(ma, &mb)) throw Skip();
 	std::set<long> sa = ma.states(), sb = mb.states(); bool disjoint = true; for (long q : sb) if (sa.count(q)) disjoint = false;
 	std::unique_ptr<EF> shifted;
 	api_begin();
@@ -203,6 +213,7 @@ void op_union_disj(const Step& s) {
 
 void op_isect(const Step& s) {
 	FAH& a = H(s, 0); FAH& b = H(s, 1); FA ma = a.model, mb = b.model; VATA::AutBase::ProductTranslMap pm;
+	if (too_big(ma, &mb)) throw Skip();
 	api_begin();
 	EF r = (s.arg(2) & 1) ? EF::Intersection(*a.aut, *b.aut, &pm) : EF::Intersection(*a.aut, *b.aut);
 	api_end();
@@ -273,6 +284,7 @@ int run_incl(const EF& a, const EF& b, long alg, long via) {
 
 void op_incl(const Step& s) {
 	FAH& a = H(s, 0); FAH& b = H(s, 1); long alg = mod(s.arg(2), 3), via = s.arg(3) & 1;
+	if (too_big(a.model, &b.model) || a.model.states().size() > 30 || b.model.states().size() > 30) throw Skip();
 	if (s.arg(3) == 2) { via = 2; alg = 0; }
 	const std::string site = std::string("fa_incl:") + ALG[alg] + (via == 2 ? ":default-overload" : via ? ":cli" : ":api");
 	api_begin(); api_site(site, BUDGET_HANG, 20000000);
@@ -294,6 +306,7 @@ void op_incl(const Step& s) {
 
 void op_incl_all(const Step& s) {
 	FAH& a = H(s, 0); FAH& b = H(s, 1); Rng r(uint64_t(s.arg(2)) + 3);
+	if (too_big(a.model, &b.model) || a.model.states().size() > 30 || b.model.states().size() > 30) throw Skip();
 	std::vector<long> order = {0, 1, 2}; for (size_t i = 3; i > 1; --i) std::swap(order[i - 1], order[r.below(i)]);
 	int want = mdl::incl(a.model, b.model), first = -1; long firstalg = 0;
 	api_begin();
